@@ -15,7 +15,7 @@ CHECKS = {
     design='4 C10', note=TB + '; oracle/absent_forms.json lists the deliberately absent forms; whole-return model validated differentially against the real Solver'),
  'C09': dict(
     technique='SMT queries over a whole-return model composed from path-exhaustive symbolic summaries of the real line definitions (z3: gate affirmative and consulted and solved must be unsat), witnesses replayed on the real Solver',
-    text='For every gate input of oracle/gates.json (62-64 per year on the Form 1040 closure, 4-5 NC gates per year on the 1040 + NC D-400 closure) and two arithmetic limit gates, z3 is asked whether some input assignment makes an evaluated line consult the gate with an affirmative answer (or exceed the limit) while the whole return still solves; unsat = impossible for every input inside the bound (K copies per input form, S in total, amounts <= 1e8 in whole cents, symbolic filing status). Each gate has a reachability twin (gate negative must be satisfiable). The model is the composition of the real line functions executed symbolically; it is validated differentially against the real Solver, and every sat witness is replayed on the uninstrumented code.',
+    text='For every gate input of oracle/gates.json (62-64 per year on the Form 1040 closure, 4-5 NC gates per year on the 1040 + NC D-400 closure) and two arithmetic limit gates, z3 is asked whether some input assignment makes an evaluated line consult the gate with an affirmative answer (or exceed the limit) while the whole return still solves; unsat = impossible for every input inside the bound (K copies per input form, S in total, amounts <= 1e8 in whole cents, symbolic filing status). The Schedule B row-capacity gate (more than 14 payers) is decided at unit level: every required Schedule B line is executed symbolically with the count symbolic in 0..16 and all other reads free, and z3 must find no value path with count > 14 on some required line; a unit witness is confirmed on a constructed 15-copy run of the real Solver. Each gate has a reachability twin (gate negative must be satisfiable). The model is the composition of the real line functions executed symbolically; it is validated differentially against the real Solver, and every sat witness is replayed on the uninstrumented code.',
     design='4 C09', note=TB + '; oracle/gates.json (generated from the pinned tree, reviewed) is the specification of the unsupported situations'),
  'C15': dict(
     technique='SMT queries over a whole-return model composed from path-exhaustive symbolic summaries of the real line definitions (z3: solved and not balance / solved and line < 0 must be unsat for non-negative inputs), witnesses replayed on the real Solver',
